@@ -128,6 +128,7 @@ class C10(PropertyCheck):
                  'count().take_while(partial(lt{int,int}, -5)).len()', 'count().nth(0, partial(gt{int,int}, -5))', f'range({N}).nth(-1, partial(gt{{int,int}}, -5))',
                  f'range({N}).to_generator().map(partial(mul{{int,int}}, 0)).group(eq{{int,int}}).len()', f'range({N}).to_generator().distinct().len()',
                  'count().to_generator().flatten_probe()' if False else 'count().to_generator().map((x: int)->{count().to_generator()}).flatten().get(150000)',
+                 'count().to_generator().skip(3000000).get(0)', 'count().to_generator().skip(150000).first((x: int)->{true})', 'successors(0, (x: int)->{x+1}).skip(150000).take(1).to_array().len()',
                  'range(0).to_generator().repeat().len()', 'range(0).to_generator().repeat().map((x: int)->{x}).filter((x: int)->{true}).last()']
         for e in extra:
             pj.append({'id': f'b{len(pj)}', 'src': wrap(e), 'calls': ['c0'], 'limits': LIMITS})
@@ -169,6 +170,31 @@ class C10(PropertyCheck):
                     distinct.add(job['src'])
                 if len(samples) < 5 and kind == 'big' and a not in [x.get('adaptor') for x in samples]:
                     samples.append({'adaptor': a, 'program': job['src'], 'outcome': out[:60]})
+        # ------------------------------------------------------------------ (c2) a spent call budget stays spent until the host resets it
+        hsrc = 'fn g(i: int) -> int { i + 1 }\nfn f() -> int { range(6).map(g).to_array().len() }'
+        hops = [{'op': 'call', 'fn': 'f'}, {'op': 'call', 'fn': 'f'}, {'op': 'call', 'fn': 'f'}, {'op': 'call', 'fn': 'f'}, {'op': 'reset_calls'}, {'op': 'call', 'fn': 'f'}]
+        for L in [10, 12, 15, 20]:
+            r = core.run_harness(ctx['binary'], [{'id': 'h', 'src': hsrc, 'ops': hops, 'limits': {'ud_calls': L}}], os.path.join(workdir, f'hh{L}'), timeout=60, shards=1).get('h')
+            n_eval += 1
+            outs = [o['r'] for o in (r.get('ops') or [])] if r else []
+            # each f() makes 7 user calls (f and six g): the k-th call of f succeeds while 7k < L
+            want = []
+            spent = 0
+            dead = False
+            for o in hops:
+                if o['op'] == 'reset_calls':
+                    want.append('reset'); spent = 0; dead = False
+                    continue
+                if dead or spent + 7 >= L:
+                    want.append('X:MaximumUDCall'); dead = True; spent = L
+                else:
+                    want.append('i:6'); spent += 7
+            got = [('X:MaximumUDCall' if str(x).startswith('X:MaximumUDCall') else x) for x in outs]
+            if got != want:
+                violations.append({'what': 'after the call budget was spent a later evaluation on the same runtime ran without it (or a reset did not restore it)',
+                                   'case': {'src': hsrc, 'ops': hops, 'limits': {'ud_calls': L}}, 'impl': outs, 'model': want})
+            else:
+                distinct.add(f'history{L}')
         # ------------------------------------------------------------------ (d) no user call begins after the deadline
         work = 'range(30000).to_generator().map(partial(add{int,int}, 1)).reduce(0, add{int,int})'
         cal_src = f'fn w(i: int) -> int {{ let d = display("#"); {work} }}\nfn c0() -> int {{ range(20).map(w).to_array().len() }}'
@@ -178,7 +204,7 @@ class C10(PropertyCheck):
             core.run_harness(ctx['binary'], [{'id': 'cal', 'src': src_, 'calls': ['c0'], 'limits': {'size': 1 << 26}}], os.path.join(workdir, 'hc' + tag), timeout=120, shards=1)
             return time.time() - t1
         per_call = min(max((timed(80, f'b{q}') - timed(20, f'a{q}')) / 60, 0.0005) for q in range(3))      # the fastest of three calibrations
-        tl_ms = max(30, int(per_call * 1000 * 6))
+        tl_ms = max(10, int(per_call * 1000 * 3))
         allowed = int(tl_ms / 1000 / per_call * 2) + 4
         for rep in range(3):
             src = f'fn w(i: int) -> int {{ let d = display("#"); {work} }}\nfn c0() -> int {{ range(100000).map(w).to_array().len() }}'
